@@ -36,13 +36,25 @@ def near_pole(lat):
     return abs(abs(lat) - 90.0) < 1e-6
 
 
+def lat_tol(glat):
+    """tolerance on a latitude of the golden table: 1e-9 degrees, widened by the reference release's OWN rounding uncertainty next
+    to the poles.  The reference computed the polar angle as acos(z/r), whose result carries an error of up to ~3.3e-16/colatitude
+    radians (two roundings of a value next to 1) = 1.08e-12/colatitude_in_degrees degrees; a golden latitude is only known to that
+    accuracy (defect F14, repaired by fix e88aa12: the current tree is the more accurate one there).  Exactly +-90 in the table
+    means 'colatitude below resolution': only |lat| > 89.99 is required."""
+    colat = 90.0 - abs(glat)
+    if colat <= 0.0:
+        return 0.01
+    return TOL_DEG + 1.08e-12 / colat
+
+
 def check_centre(t, resp):
     if not resp.startswith("ok "):
         return f"cell_to_lonlat failed: {resp}"
     a = resp.split()
     lon, lat = fx(a[1]), fx(a[2])
     glon, glat = unhx(t[2]), unhx(t[3])
-    if abs(lat - glat) > TOL_DEG or (dlon(lon, glon) > TOL_DEG and not near_pole(glat)):
+    if abs(lat - glat) > lat_tol(glat) or (dlon(lon, glon) > TOL_DEG and not near_pole(glat)):
         return f"centre moved: reference ({glon!r},{glat!r}) now ({lon!r},{lat!r})"
     return None
 
@@ -55,7 +67,7 @@ def check_corners(t, resp):
     if len(pts) != len(gold):
         return f"number of corners changed: {len(gold)} -> {len(pts)}"
     for (lon, lat), (glon, glat) in zip(pts, gold):
-        if abs(lat - glat) > TOL_DEG or (dlon(lon, glon) > TOL_DEG and not near_pole(glat)):
+        if abs(lat - glat) > lat_tol(glat) or (dlon(lon, glon) > TOL_DEG and not near_pole(glat)):
             return f"corner moved: reference ({glon!r},{glat!r}) now ({lon!r},{lat!r})"
     return None
 
